@@ -15,7 +15,7 @@ class Outcome:
             setattr(self, k, v)
 
 
-def run_case(drv, node, stack=(), text=None, flags=0, limit=3000, steps=3000000, budget=200000):
+def run_case(drv, node, stack=(), text=None, flags=0, limit=3000, steps=3000000, budget=200000, steps_fn=None):
     """Evaluate NODE in the model and TEXT (default: canonical rendering) in the engine."""
     if text is None:
         text = render(node)
@@ -31,6 +31,8 @@ def run_case(drv, node, stack=(), text=None, flags=0, limit=3000, steps=3000000,
     except RecursionError:
         return Outcome("inconclusive", "model recursion", text=text)
 
+    if steps_fn is not None and stream is not None:
+        steps = steps_fn(stream)
     r = drv.run(text, stack_spec(stack), flags=flags, limit=limit, steps=steps)
     if "contract" in r:
         return Outcome("violation", "API contract: " + r["contract"], text=text, reply=r)
@@ -39,9 +41,10 @@ def run_case(drv, node, stack=(), text=None, flags=0, limit=3000, steps=3000000,
             return Outcome("violation", "model predicts compile error (%s) but the query compiled" % merr,
                            text=text, reply=r)
         msg = r["cerror"]
-        if merr.name not in msg or (merr.kind == "unbound" and "unbound" not in msg) \
-                or (merr.kind == "rebound" and "rebound" not in msg):
-            return Outcome("violation", "compile error %r does not report %s of `%s'" % (msg, merr.kind, merr.name),
+        # Which of several scope errors is reported first is not specified.
+        errs = M.all_scope_errors(node)
+        if not any(("`%s'" % name) in msg and kind in msg for kind, name in errs):
+            return Outcome("violation", "compile error %r reports none of the scope errors %r" % (msg, errs[:5]),
                            text=text, reply=r)
         return Outcome("ok", "compile-error", text=text, reply=r)
     if "cerror" in r:
